@@ -6,8 +6,10 @@ package prog
 
 import (
 	"fmt"
+	"runtime"
 	"sort"
 	"sync"
+	"time"
 )
 
 type pool struct {
@@ -247,9 +249,10 @@ func More() string {
 	}()
 	<-waited
 	sum := <-h.ch + <-h.ch
+	var closedOff chan level
 	select {
 	case h.ch <- 1 << 3:
-	case h.ch <- level(compute(1, 2)):
+	case closedOff <- level(compute(1, 2)):
 	}
 	var inner string
 	select {
@@ -274,4 +277,33 @@ func More() string {
 	go func() { wg.Wait(); fin <- true }()
 	wg.Done()
 	return fmt.Sprint(sum, inner, kind, <-fin, len(h.ch))
+}
+
+// Polling: a flag polled with time.Sleep / runtime.Gosched while another
+// goroutine sets it under a mutex.
+func Polling() string {
+	var mu sync.Mutex
+	ready := 0
+	go func() {
+		runtime.Gosched()
+		mu.Lock()
+		ready = 7
+		mu.Unlock()
+	}()
+	n := 0
+	for {
+		mu.Lock()
+		r := ready
+		mu.Unlock()
+		if r != 0 {
+			break
+		}
+		n++
+		if n%2 == 0 {
+			time.Sleep(100 * time.Microsecond)
+		} else {
+			runtime.Gosched()
+		}
+	}
+	return fmt.Sprint(ready)
 }
